@@ -65,7 +65,17 @@ class Agg:
             return
         if status in ("unsupported", "error"):
             if len(self.errors) < 5:
-                self.errors.append(dict(status=status, err=err, decisions=_short(ctx.decisions)))
+                # one concrete member of the path that left the modelled API: the driver runs it on the real stack
+                # (a violation found there is reported; nothing found keeps the run inconclusive)
+                inst = None
+                try:
+                    rt.set_cur(ctx)
+                    inst = ctx.diverse_instance()
+                except BaseException:
+                    inst = None
+                finally:
+                    rt.set_cur(None)
+                self.errors.append(dict(status=status, err=err, decisions=_short(ctx.decisions), instance=inst))
             else:
                 self.errors.append(None)
             return
@@ -152,7 +162,7 @@ def explore(harness, cfg, known=(), workers=None, deadline_s=None, max_paths=Non
         if trace is not None:
             trace.stop()
     total.merge(a)
-    if total.errors:
+    if any(e and e.get("status") == "error" for e in total.errors):
         info["wall_s"] = time.time() - t0
         return total, info
     if workers <= 1:
